@@ -40,6 +40,7 @@ class FailPlan:
         self.count = 0
         self.failed_args = None
         self.armed = True
+        self.instance = None  # when set: the very same exception object is raised every time
 
     def __call__(self, name, nth, args=None):
         if name != self.fname:
@@ -47,9 +48,9 @@ class FailPlan:
         self.count += 1
         if self.armed and self.count == self.k:
             self.failed_args = args
-            raise _exc(self.kind)
+            raise self.instance if self.instance is not None else _exc(self.kind)
         if self.failed_args is not None and args is not None and _same(args, self.failed_args):
-            raise _exc(self.kind)
+            raise self.instance if self.instance is not None else _exc(self.kind)
 
 
 def _same(a, b):
@@ -158,8 +159,9 @@ def fail_map(tid, storage, use_exec, fname, k, kind, c0, c1, n0, n1, n2, *vals):
         L.cleanup_dirs()
 
 
-def fail_twice(storage, v0, v1, kind):
-    """two failing maps on the same pipeline object: the snapshot describes the most recent failure"""
+def fail_twice(storage, v0, v1, kind, reuse=False):
+    """two failing maps on the same pipeline object: the snapshot and the annotation describe the most recent
+    failure - also when the user function raises the very same exception object both times (reuse)"""
     L.reset()
     t = T["T1"]
     kind = L.concretize(kind, 0, 2)
@@ -173,6 +175,8 @@ def fail_twice(storage, v0, v1, kind):
             shims.TOK.clear()
             log = tmpl.Log()
             plan = FailPlan("f", 1, kind)
+            if reuse:
+                plan.instance = _exc(kind)
             p = tmpl.make_pipeline(t.funcs, log, fail_at=plan)
             folder = L.scratch_dir() if storage != "dict" else None
         for k_fail, xfail in ((1, v0), (2, v1)):
@@ -184,6 +188,9 @@ def fail_twice(storage, v0, v1, kind):
             except Exception as e:  # noqa: BLE001
                 if type(e) is not type(_exc(kind)):
                     return fail("exception type changed")
+                notes = [n_ for n_ in getattr(e, "__notes__", []) if "f(" in n_]
+                if not any(f"x={xfail}" in n_ for n_ in notes):
+                    return fail("the annotation does not show the keyword arguments of the failing invocation")
             snap = p.error_snapshot
             if snap is None:
                 return fail("no snapshot")
@@ -242,6 +249,55 @@ def fail_run(rid, out, fname, kind, v0, v1, v2, v3, v4, v5):
     return True
 
 
+def _leaked_threads(before):
+    """threads started since `before` that are still running; they are released so that the worker can exit"""
+    import threading
+
+    with NoTracing():
+        leaked = [th for th in threading.enumerate() if th not in before and th.is_alive()]
+        for th in leaked:
+            owner = getattr(getattr(th, "_target", None), "__self__", None)
+            ev = getattr(owner, "stop_event", None)
+            if ev is not None:
+                ev.set()
+            th.join(timeout=5)
+    return leaked
+
+
+def fail_profiled(use_map, k, kind, v0, v1):
+    """profile=True: a failing profiled function surfaces its exception as usual and the call leaves no running
+    (non-daemon sampler) thread behind - otherwise the program cannot terminate"""
+    import threading
+
+    L.reset()
+    t = T["T1"]
+    k = L.concretize(k, 1, 3)
+    kind = L.concretize(kind, 0, 2)
+    v0, v1 = L.concretize(v0, 0, 1), L.concretize(v1, 0, 1)
+    with NoTracing():
+        log = tmpl.Log()
+        plan = FailPlan("f", k, kind)
+        p = tmpl.make_pipeline(t.funcs, log, fail_at=plan, profile=True)
+        before = set(threading.enumerate())
+    ncalls = 2 if use_map else 1
+    try:
+        if use_map:
+            p.map({"x": [v0, v1]}, storage="dict", parallel=False)
+        else:
+            p("y", x=v0)
+        raised = None
+    except Exception as e:  # noqa: BLE001
+        raised = e
+    leaked = _leaked_threads(before)
+    if leaked:
+        return fail("a thread started by the call is still running after it returned (the program would hang)")
+    if k > ncalls:
+        return raised is None or fail("exception without a failing invocation")
+    if raised is None:
+        return fail("failure of a profiled function was swallowed")
+    return _check_exc(raised, kind, "f", ["x"])
+
+
 CANARIES = {}
 
 
@@ -298,10 +354,16 @@ def obligations(tier):
                         canaries=("runtimeerror_swallowed_in_map",) if (tid, fname, st, use_exec) == ("T1", "f", "dict", False) else (),
                     )
                 )
+    obs.append(
+        Ob("fail_profiled", [("use_map", "bool"), ("k", I), ("kind", I), ("v0", I), ("v1", I)], ["1 <= k <= 3", "0 <= kind <= 2", "0 <= v0 <= 1 and 0 <= v1 <= 1"],
+           "H.fail_profiled(use_map, k, kind, v0, v1)", timeout=200,
+           bounds="Pipeline(profile=True): the profiled function raises in its k-th call (map over 2 elements or a direct call): same exception, annotated, "
+           "and no thread started by the call is still alive afterwards")  # fmt: skip
+    )
     for st in ("dict", "file_array"):
         obs.append(
-            Ob(f"failtwice_{st}", [("v0", I), ("v1", I), ("kind", I)], ["0 <= v0 <= 1 and 0 <= v1 <= 1", "0 <= kind <= 2"], f"H.fail_twice({st!r}, v0, v1, kind)",
-               timeout=200, flags=("tokpickle",), bounds=f"two failing maps on one pipeline object ({st}), different failing invocation, same exception kind")  # fmt: skip
+            Ob(f"failtwice_{st}", [("v0", I), ("v1", I), ("kind", I), ("reuse", "bool")], ["0 <= v0 <= 1 and 0 <= v1 <= 1", "0 <= kind <= 2"], f"H.fail_twice({st!r}, v0, v1, kind, reuse)",
+               timeout=200, flags=("tokpickle",), bounds=f"two failing maps on one pipeline object ({st}), different failing invocation, same exception kind (fresh or the very same exception object): snapshot and annotation describe the latest failure")  # fmt: skip
         )
     for rid, out, fnames in (("R1", "e", ["f", "g", "h"]), ("R2", "e", ["f", "h", "k"]), ("R3", "z", ["g", "k"]), ("R7", "s", ["f"])):
         for fname in fnames:
